@@ -12,8 +12,7 @@ Theorem C15_offset_for_token_correct :
     post = recon rs (is_sl_comment (t_ty (fst p))) (skipn (S i) toks).
 Proof. exact offset_for_token_correct. Qed.
 
-(* every relocated cursor lies within the output; pos_ok is True except for a cursor on a blank
-   line in front of a token, where it is exactly "the result is not beyond the token start" *)
+(* every relocated cursor of an in-range token lies within the output *)
 Theorem C15_in_bounds :
   forall rs toks idx pos p, nth_error toks idx = Some p ->
   exists z, relocate rs toks idx pos = Some z /\ (0 <= z <= Z.of_N (blen (recon rs false toks)))%Z.
@@ -36,13 +35,16 @@ Theorem C15_in_bounds_lf :
   exists z, track_cursor rs raw final c = Some z /\ (0 <= z <= Z.of_N (blen (recon rs false final)))%Z.
 Proof. exact track_cursor_in_bounds_lf. Qed.
 
-(* a cursor inside or at the end of a single-line token keeps its offset inside that token *)
+(* a cursor inside or at the end of a single-line token keeps its offset inside that token, when
+   that offset is a character boundary of the token's final text (F9 repaired: otherwise it is
+   moved down to the nearest boundary, see C15_char_boundary) *)
 Theorem C15_same_offset :
   forall rs pre t post final p off,
   is_multiline_raw (r_ty t) = false ->
   0 < off <= blen (r_content t) -> blen (r_content t) < 4294967296 ->
   nth_error final (length pre) = Some p ->
-  off <= blen (t_content (fst p)) -> blen (t_content (fst p)) < 4294967296 ->
+  off <= blen (t_content (fst p)) ->
+  is_char_boundary (t_content (fst p)) (N.to_nat off) = true ->
   track_cursor rs (pre ++ t :: post) final (raw_len pre + blen (r_ws t) + off)
   = Some (Z.of_N (offset_for_token rs final (length pre) + off)).
 Proof. exact track_cursor_content_same_offset. Qed.
@@ -51,9 +53,56 @@ Proof. exact track_cursor_content_same_offset. Qed.
 Theorem C15_same_offset_multiline :
   forall rs raw ridx t tp toks idx p,
   is_multiline_raw (r_ty t) = true -> (0 <= tp <= Z.of_N (blen (r_content t)))%Z ->
+  is_char_boundary (r_content t) (Z.to_nat tp) = true ->
   nth_error toks idx = Some p -> t_content (fst p) = r_content t -> blen (r_content t) < 65536 ->
   relocate rs toks idx (tokpos_of raw ridx t tp) = Some (Z.of_N (offset_for_token rs toks idx) + tp)%Z.
 Proof. exact multiline_roundtrip. Qed.
+
+(* F9 repaired: a Content / MultilineContent cursor lands on a character boundary of the token's
+   NEW text, whatever that text is … *)
+Theorem C15_char_boundary_token :
+  forall rs toks idx p pos, nth_error toks idx = Some p ->
+  match pos with PWhitespace _ _ => False | _ => True end ->
+  exists k, relocate rs toks idx pos = Some (Z.of_N (offset_for_token rs toks idx) + Z.of_nat k)%Z /\
+            (k <= length (t_content (fst p)))%nat /\ is_char_boundary (t_content (fst p)) k = true.
+Proof. exact relocate_char_boundary. Qed.
+
+(* … and every relocated cursor is a character boundary of the output, when no safety-net newline
+   fired (class F10), no piece of the output starts with a UTF-8 continuation byte, the settings'
+   strings are ASCII and, in the verbatim whitespace of ignored tokens, no continuation byte
+   directly follows an LF (after_lf_ok; both conditions on the text hold for valid UTF-8) *)
+Theorem C15_char_boundary :
+  forall rs raw final c z, final <> [] ->
+  (forall p, last_opt final = Some p -> t_content (fst p) = []) ->
+  net_free false final = true -> pieces_ok rs final -> rs_no_cont rs ->
+  Forall (fun p => f_ignored (snd p) = true -> after_lf_ok (t_ws (fst p))) final ->
+  track_cursor rs raw final c = Some z ->
+  is_char_boundary (recon rs false final) (Z.to_nat z) = true.
+Proof. exact track_cursor_on_char_boundary. Qed.
+
+(* Content / MultilineContent cursors need no assumption on the whitespace *)
+Theorem C15_char_boundary_content :
+  forall rs raw final c idx pos z,
+  net_free false final = true -> pieces_ok rs final ->
+  process_cursor raw c = (idx, pos) -> (idx < length final)%nat ->
+  match pos with PWhitespace _ _ => False | _ => True end ->
+  track_cursor rs raw final c = Some z ->
+  is_char_boundary (recon rs false final) (Z.to_nat z) = true.
+Proof. exact track_cursor_on_char_boundary_content. Qed.
+
+(* regression (repaired by c3b0c3f): a whitespace cursor in verbatim whitespace containing U+3000
+   (`a  ;<U+3000><U+3000>// pasfmt off`, cursor 7) used to land inside the second U+3000 (byte 7);
+   it is now reported at 5, the boundary between the two blanks *)
+Theorem C15_regression_verbatim_whitespace_mid_char :
+  exists rs raw final c idx col nla z,
+    input_boundary (raw_text raw) c /\ process_cursor raw c = (idx, PWhitespace col nla) /\
+    net_free false final = true /\ pieces_ok rs final /\ rs_no_cont rs /\
+    Forall (fun p => f_ignored (snd p) = true -> after_lf_ok (t_ws (fst p))) final /\
+    track_cursor rs raw final c = Some z /\ z = 5%Z /\
+    is_char_boundary (recon rs false final) (Z.to_nat z) = true /\
+    is_char_boundary (recon rs false final) 7 = false /\
+    map (track_cursor_u32 rs raw final) [4;7;10] = [2;5;8].
+Proof. exact whitespace_verbatim_mid_char_fixed_example. Qed.
 
 (* cursors beyond the end of the input map to the end of the output *)
 Theorem C15_past_end :
@@ -96,3 +145,12 @@ Theorem C15_refuted_u16_truncation :
     relocate rs [p] 0 (PMultiline (u16 (first_line_len after)) (u16 (count_lf after))) = Some 65536%Z /\
     offset_for_token rs [p] 0 = 0.
 Proof. exact multiline_u16_truncation_refuted. Qed.
+
+(* F9 regression: `a; //é`, cursor 7 (end of the comment, which becomes `// é`): reported at 6, a
+   character boundary of the output; 7 would be inside `é` *)
+Theorem C15_regression_mid_char :
+  recon f9_rs false f9_final = [97;59;32;47;47;32;195;169;10] /\
+  track_cursor f9_rs f9_raw f9_final 7 = Some 6%Z /\
+  is_char_boundary (recon f9_rs false f9_final) 6 = true /\
+  is_char_boundary (recon f9_rs false f9_final) 7 = false.
+Proof. repeat split; apply cursor_mid_char_fixed_example. Qed.
